@@ -45,6 +45,7 @@ struct Th {
     uint32_t last_wseq;    // write count of last_load's atomic when it was loaded
     bool timed;            // blocked in a wait with a timeout / in a sleep: simulated time may pass
     bool timed_out;
+    bool in_jump;          // woken by the most recent jump of simulated time
 };
 
 struct Xo {
@@ -89,6 +90,9 @@ struct Global {
     // rr
     int64_t rr_left;
     uint64_t rng_ctr;
+    bool progress;         // since the last time jump: a notify, an atomic write, an event, a thread start/exit,
+                           // or a step by a thread the jump did not wake
+    int idle_jumps;        // consecutive time jumps without any such progress (polling loops going round)
     size_t nev;
     uint32_t cells_hi;
     int live;
@@ -276,11 +280,21 @@ void schedule(bool final_exit = false) {
         // nobody can run: simulated time jumps to the earliest deadline -- every thread in a timed wait
         // or a sleep times out (tlx itself has no timed waits; this keeps the simulator honest for
         // code that introduces one)
-        for (int t = 0; t < g.nth; ++t)
-            if ((g.th[t].state == S_CV || g.th[t].state == S_SLEEP) && g.th[t].timed) {
-                g.th[t].state = S_RUN; g.th[t].timed_out = true; g.st.f_timeout++;
-                if (t == me) me_en = true;
+        // A thread awaiting quiescence is released instead once the timed waiters have gone round three
+        // times without anything else happening: a loop that polls a predicate with wait_for() is at rest.
+        if (g.progress) { g.idle_jumps = 0; g.progress = false; }
+        else g.idle_jumps++;
+        bool quiescer = false;
+        for (int t = 0; t < g.nth; ++t) quiescer |= g.th[t].state == S_QUIESCE;
+        if (!(quiescer && g.idle_jumps >= 3)) {
+            for (int t = 0; t < g.nth; ++t) {
+                g.th[t].in_jump = false;
+                if ((g.th[t].state == S_CV || g.th[t].state == S_SLEEP) && g.th[t].timed) {
+                    g.th[t].state = S_RUN; g.th[t].timed_out = true; g.th[t].in_jump = true; g.st.f_timeout++;
+                    if (t == me) me_en = true;
+                }
             }
+        }
         if (g.th[me].state == S_RUN) cand[n++] = me;
         for (int t = 0; t < g.nth; ++t)
             if (t != me && g.th[t].state == S_RUN) cand[n++] = t;
@@ -297,6 +311,7 @@ void schedule(bool final_exit = false) {
         idx = take(n, (g.replaying && !fair_phase) ? 0 : pick(cand, n, me_en));
     }
     int next = cand[idx];
+    if (!g.th[next].in_jump) g.progress = true;
     g.th[next].last_run = g.st.steps;
     if (me_en && next != me) g.st.preempts++;
     if (next == me) return;
@@ -370,6 +385,7 @@ void rt_run_begin(const SimCfg& cfg, uint64_t seed, const uint8_t* replay, size_
     }
     g.rr_left = cfg.param;
     g.rng_ctr = 0;
+    g.progress = true; g.idle_jumps = 0;
     g.nev = 0;
     if (g.cells_hi) memset(g_cells, 0, sizeof(int64_t) * g.cells_hi);
     g.cells_hi = 0;
@@ -457,6 +473,7 @@ void rt_sleep() {
 void rt_cv_notify(CvSt* c, bool all) {
     if (!g.active) return;
     reset_spin(g.th[me]);
+    g.progress = true;
     int w[MAXT];
     int nw = cv_waiters(c, w);
     if (nw == 0) g.st.p_notify_empty++;
@@ -493,6 +510,7 @@ void rt_atomic_loaded(AtomicSt* a, uint64_t v) {
 }
 void rt_atomic_written(AtomicSt* a, bool rmw) {
     if (!g.active) return;
+    g.progress = true;
     reset_spin(g.th[me]);
     a->pad++;
     for (int t = 0; t < g.nth; ++t)
@@ -525,6 +543,7 @@ void rt_thread_end(int tid) {
     Th& t = g.th[tid];
     t.state = S_EXITED;
     g.live--;
+    g.progress = true;
     for (int j = 0; j < g.nth; ++j)
         if (g.th[j].state == S_JOIN && g.th[j].join_target == tid) g.th[j].state = S_RUN;
     mix(OP_TEXIT, uint32_t(tid));
@@ -596,6 +615,7 @@ void rt_count_alloc(bool recycled, bool quarantined) {
 // ---- history / ledgers ------------------------------------------------------
 uint64_t rt_event(uint32_t kind, int64_t a, int64_t b) {
     g.heartbeat++;
+    g.progress = true;
     if (g.nev >= EV_CAP) rt_fatal("machinery", "event log overflow");
     Event& e = g_ev[g.nev];
     e.seq = g.nev; e.tid = me; e.kind = kind; e.a = a; e.b = b;
